@@ -10,9 +10,14 @@
    triples of match.  The compositions test/capture/scan/split/2/splits/sub/gsub are jq-defined reductions
    over match; for splits and sub/gsub the telescoping argument is proved over a hand transcription of the
    builtin.jq reduce/foreach bodies (C14_splits_rebuild, C14_gsub_identity) under [re_ordered]; test,
-   capture, scan and termination are checked on the implementation only (regex stream of harness/c14). *)
+   capture, scan and split/2 likewise over transcriptions of their (one-line) builtin.jq bodies.
+   Termination: the only loop is regexp's global matching loop (allMatches), modelled in c14/Pos.v over a
+   single-search engine [exec] with the progress hypothesis [exec_progress]; it never runs out of fuel, its
+   output is ordered and its match ends strictly increase, so every jq-level iteration over match is over
+   at most len+1 elements.  All engine hypotheses are checked on every sampled regexp output by the
+   extracted model (verdict hyp-violated). *)
 From Coq Require Import List ZArith NArith Bool.
-From Verif Require Import c13.Utf8 c13.Utf8Proofs c13.Jv c14.Pos c14.PosProofs c14.RegexProofs.
+From Verif Require Import c13.Utf8 c13.Utf8Proofs c13.Jv c14.Pos c14.PosProofs c14.RegexProofs c14.BuiltinProofs.
 Import ListNotations.
 
 (* length = explode | length, for every byte string *)
@@ -97,6 +102,76 @@ Theorem C14_gsub_identity :
 Proof. exact gsub_identity. Qed.
 Print Assumptions C14_gsub_identity.
 
+(* test holds iff a match exists (with or without g), given that MatchString says whether a first match
+   exists and that FindAll(s, 1) is the first element of FindAll(s, -1) *)
+Theorem C14_test_iff_match :
+  forall (re : list N -> list N -> list N -> bool -> list (list Z)) (re_test : list N -> list N -> list N -> bool),
+  (forall r f s, re_test r f s = negb (match re r f s false with [] => true | _ => false end)) ->
+  (forall r f s, re r f s false = firstn 1 (re r f s true)) ->
+  forall r f s g, jq_test (re_test r f s) = JBool true <-> jq_match re r f s g <> [].
+Proof. exact test_iff_match. Qed.
+Print Assumptions C14_test_iff_match.
+
+(* capture: every named group surfaces under its name with the group's string, null when the group did not
+   participate (m_string = None); names are unique (regexp rejects duplicates: checked as names_nodupb) *)
+Theorem C14_capture_named : forall ns1 n ns2 cs1 c cs2,
+  length ns1 = length cs1 -> n <> [] -> ~ In n ns2 ->
+  lookup n (captures_obj (ns1 ++ n :: ns2) (cs1 ++ c :: cs2)) = Some (jstr (m_string c)).
+Proof. exact capture_named. Qed.
+Print Assumptions C14_capture_named.
+
+Theorem C14_capture_keys : forall names caps k v, In (k, v) (captures_obj names caps) -> In k names.
+Proof. exact captures_obj_keys. Qed.
+Print Assumptions C14_capture_keys.
+
+(* scan: without groups, the strings of the (global) matches *)
+Theorem C14_scan_strings : forall mcs, Forall (fun mc => snd mc = []) mcs ->
+  map jq_scan mcs = map (fun mc => jstr (m_string (fst mc))) mcs.
+Proof. exact scan_strings. Qed.
+Print Assumptions C14_scan_strings.
+
+Theorem C14_scan_groups : forall m c caps, jq_scan (m, c :: caps) = JArr (map (fun c => jstr (m_string c)) (c :: caps)).
+Proof. exact scan_groups. Qed.
+Print Assumptions C14_scan_groups.
+
+(* split/2 == [splits] *)
+Theorem C14_split2 : forall s ms, jq_split2 s ms = JArr (map JStr (splits s ms)).
+Proof. exact split2_is_splits. Qed.
+Print Assumptions C14_split2.
+
+(* TERMINATION of the global match loop, empty matches included: under exec_progress (a match found when
+   searching from pos lies between pos and the end) the fuel len+2 is never exhausted *)
+Theorem C14_loop_terminates :
+  forall exec : list N -> nat -> option (list Z),
+  (forall s pos m, (pos <= length s)%nat -> exec s pos = Some m ->
+     (Z.of_nat pos <= fst (whole m) /\ fst (whole m) <= snd (whole m) /\ snd (whole m) <= Z.of_nat (length s))%Z) ->
+  forall s limit, snd (all_matches exec s (length s + 2) limit 0 (-1)%Z) = false.
+Proof. exact all_matches_terminates. Qed.
+Print Assumptions C14_loop_terminates.
+
+(* ... and what it delivers satisfies re_ordered and has strictly increasing ends *)
+Theorem C14_loop_ordered :
+  forall exec : list N -> nat -> option (list Z),
+  (forall s pos m, (pos <= length s)%nat -> exec s pos = Some m ->
+     (Z.of_nat pos <= fst (whole m) /\ fst (whole m) <= snd (whole m) /\ snd (whole m) <= Z.of_nat (length s))%Z) ->
+  forall s g, orderedb s (find_all exec s g) = true.
+Proof. exact find_all_ordered. Qed.
+Print Assumptions C14_loop_ordered.
+
+Theorem C14_loop_progress :
+  forall exec : list N -> nat -> option (list Z),
+  (forall s pos m, (pos <= length s)%nat -> exec s pos = Some m ->
+     (Z.of_nat pos <= fst (whole m) /\ fst (whole m) <= snd (whole m) /\ snd (whole m) <= Z.of_nat (length s))%Z) ->
+  forall s g, progressb (find_all exec s g) = true.
+Proof. exact find_all_progress. Qed.
+Print Assumptions C14_loop_progress.
+
+(* strictly increasing ends bound the number of matches every jq-level reduction iterates over *)
+Theorem C14_match_count : forall ps prev stop, ends_increasing prev ps = true ->
+  Forall (fun p => (snd p <= stop)%Z) ps -> (Z.of_nat (length ps) <= Z.max 0 (stop - prev))%Z.
+Proof. exact ends_increasing_count. Qed.
+Print Assumptions C14_match_count.
+
 (* non-vacuity: an aligned result on a subject with 2-, 3- and 4-byte characters and an ill-formed byte,
    including an empty match and a non-participating group; the conversion yields code point offsets *)
 Example C14_nonvacuous :
@@ -110,5 +185,11 @@ Example C14_nonvacuous :
   (* an ordered global result with empty matches: "é*" on the subject, flag g *)
   orderedb s [[0; 0]; [1; 3]; [3; 3]; [6; 6]; [10; 10]; [11; 11]; [12; 12]]%Z = true /\
   forallb (alignedb s) [[0; 0]; [1; 3]; [3; 3]; [6; 6]; [10; 10]; [11; 11]; [12; 12]]%Z = true /\
-  orderedb s [[1; 3]; [2; 3]]%Z = false.
+  orderedb s [[1; 3]; [2; 3]]%Z = false /\
+  progressb [[0; 0]; [1; 3]; [3; 3]; [6; 6]; [10; 10]; [11; 11]; [12; 12]]%Z = false /\   (* "[3;3]" right after [1;3] is not delivered *)
+  progressb [[0; 0]; [1; 3]; [6; 6]; [10; 10]; [11; 11]; [12; 12]]%Z = true /\
+  (* the loop on an engine that always reports the empty match at the search position: terminates, one
+     match per rune boundary *)
+  all_matches (fun _ pos => Some [Z.of_nat pos; Z.of_nat pos]) s (length s + 2) (length s + 1) 0 (-1)%Z =
+    ([[0; 0]; [1; 1]; [3; 3]; [6; 6]; [10; 10]; [11; 11]; [12; 12]]%Z, false).
 Proof. vm_compute. repeat split; reflexivity. Qed.
